@@ -206,9 +206,13 @@ func cmdCheck(args []string) int {
 		for _, c := range byTags[tags] {
 			obs, x, _ := g.verifyContract(p, c)
 			all = append(all, obs...)
-			rep := &fnReport{Function: c.Pkg + "." + c.Name, File: strings.TrimPrefix(c.File, *repo+"/"), Mode: c.Mode.String(), Tags: tags, Abstract: c.Abstract}
+			fname := c.Pkg + "." + c.Name
+			if c.Variant != "" {
+				fname += " (second specification: " + c.Variant + ")"
+			}
+			rep := &fnReport{Function: fname, File: strings.TrimPrefix(c.File, *repo+"/"), Mode: c.Mode.String(), Tags: tags, Abstract: c.Abstract}
 			if x != nil {
-				fxs[c.Pkg+"."+c.Name] = x
+				fxs[fname] = x
 				rep.Loops = len(x.loopList)
 				withInv := map[int]bool{}
 				for _, cl := range c.Invariants {
@@ -252,9 +256,9 @@ func cmdCheck(args []string) int {
 			todo = append(todo, o)
 		}
 	}
-	q1, q2 := 4, 25
+	q1, q2 := 5, 60
 	if *tier == "thorough" {
-		q1, q2 = 10, 120
+		q1, q2 = 10, 180
 	}
 	ts := time.Now()
 	dischargeAll(todo, work, *par, q1, q2)
@@ -405,6 +409,11 @@ func cmdCheck(args []string) int {
 		os.MkdirAll(filepath.Join(*verif, "evidence"), 0o755)
 		b, _ := json.MarshalIndent(ev, "", " ")
 		os.WriteFile(filepath.Join(*verif, "evidence", *prop+".json"), b, 0o644)
+	}
+	for _, o := range proofObs {
+		if o.Secs > 8 {
+			fmt.Printf("  slow: %s %.1fs (%s)\n", o.Name, o.Secs, o.Backend)
+		}
 	}
 	fmt.Printf("property=%s tier=%s functions=%d lemmas=%d obligations=%d discharged=%d known=%d violations=%d canaries=%v wall=%.1fs\n",
 		*prop, *tier, len(cs), len(lemmas), len(proofObs), discharged, nKnownObs, len(violations), vac, time.Since(t0).Seconds())
